@@ -429,10 +429,12 @@ func runC07(tier string, _ []string) int {
 		}
 		// now x comes back and the group goes away; nothing else happens
 		if e, err := d.sendEdge(x, d.g.Root, data.Points{{Type: data.PointTypeTombstone, Time: d.now(), Value: 0}}); err != nil || e != "" {
+			c.Inconclusive(fmt.Sprintf("patient case: undeletion not accepted (%v %q)", err, e))
 			patient <- ""
 			return
 		}
 		if e, err := d.sendEdge(grp, d.g.Root, data.Points{{Type: data.PointTypeTombstone, Time: d.now(), Value: 1}}); err != nil || e != "" {
+			c.Inconclusive(fmt.Sprintf("patient case: group deletion not accepted (%v %q)", err, e))
 			patient <- ""
 			return
 		}
